@@ -3,6 +3,7 @@
 //   (0 nx dx x0 rot pol sel pts)                      -> (nrows ncols rows apex)  ProjMatrix on a MeshETurbo
 //   (1 ndim apices meshes pts)                        -> (nrows ncols rows)       ProjMatrix on a MeshEStandard
 //   (2 mesh cov v dest)                               -> (n S lambda coeffs free cs training Q diagfree diagcs ... addToDest of both forms)
+//   (13 mesh (cov ...) pts z vars ptsout)              -> conditional solves, one variance per datum, 1-2 structures, Cholesky / CG, API with locator V
 //   (11 meshA meshB ptsA ptsB nullflag v y d1 d2)     -> ProjMulti (2 x 2 blocks of ProjMatrix): blocks, mesh2point / point2mesh / add variants
 //   (5 nx dx x0 conv nodeRes gext v y dst)            -> ProjConvolution: shifts, resolution grid, mesh2point / point2mesh / add variants
 //   (4 nx dx x0 rot pol sel pts)                      -> (-1) when resetFromTurbo fails | (napices nmeshes (turbo rows) (standard rows))
@@ -54,17 +55,19 @@ static VectorInt toVI(const std::vector<int>& v) { VectorInt r(v.size()); for (s
 static std::vector<int> deep_i(const VectorInt& v) { std::vector<int> r(v.size()); for (size_t i = 0; i < v.size(); i++) r[i] = v.getVector()[i]; return r; }
 static VD deep(const VectorDouble& v) { VD r(v.size()); for (size_t i = 0; i < v.size(); i++) r[i] = v.getVector()[i]; return r; }
 
-static Db* makeDb(const Sx& pts, int ndim, const VD* z = nullptr) {
+static Db* makeDb(const Sx& pts, int ndim, const VD* z = nullptr, const VD* verr = nullptr) {
   int n = (int) pts.size();
-  int ncol = ndim + (z ? 1 : 0);
+  int ncol = ndim + (z ? 1 : 0) + (verr ? 1 : 0);
   VectorDouble tab((size_t) n * ncol);
   for (int i = 0; i < n; i++) {
     for (int d = 0; d < ndim; d++) tab[(size_t) d * n + i] = pts[i][d].d();
     if (z) tab[(size_t) ndim * n + i] = (*z)[i];
+    if (verr) tab[(size_t) (ndim + 1) * n + i] = (*verr)[i];
   }
   VectorString names, locs;
   for (int d = 0; d < ndim; d++) { names.push_back("x" + std::to_string(d + 1)); locs.push_back("x" + std::to_string(d + 1)); }
   if (z) { names.push_back("z"); locs.push_back("z1"); }
+  if (verr) { names.push_back("verr"); locs.push_back("v1"); }
   return Db::createFromSamples(n, ELoadBy::COLUMN, tab, names, locs, false);
 }
 
@@ -152,6 +155,62 @@ static std::string run(const Sx& c) {
     ProjMatrix P(db, mesh);
     o << "(" << projOut(P) << ")";
     delete db; delete mesh;
+  } else if (kind == 13) {
+    // conditional solves with one variance per datum and one or two structures on the same meshing:
+    // (13 mesh (cov ...) pts z vars ptsout)
+    AMesh* mesh = makeMesh(c[1]);
+    if (!mesh) return "(-997 2)";
+    int ndim = mesh->getNDim();
+    int ncov = (int) c[2].size();
+    Model* model = makeModel(c[2][0], ndim);
+    for (int k = 1; k < ncov; k++) {
+      const Sx& cv = c[2][k];
+      model->addCovFromParam(ECov::MATERN, 1., cv[1].d(), cv[0].d(), toVD(cv[2].vd()), VectorDouble(), toVD(cv[3].vd()), true);
+    }
+    VD z = c[4].vd(), vars = c[5].vd();
+    int ndat = (int) z.size();
+    Db* dat = makeDb(c[3], ndim, &z, &vars);
+    Db* dout = makeDb(c[6], ndim);
+    ProjMatrix A(dat, mesh);
+    std::vector<PrecisionOp*> Qf; std::vector<PrecisionOpCs*> Qc;
+    PrecisionOpMultiConditional Mf; PrecisionOpMultiConditionalCs Mc;
+    for (int k = 0; k < ncov; k++) {
+      Qf.push_back(new PrecisionOp(mesh, model->getCova(k), false));
+      Qc.push_back(new PrecisionOpCs(mesh, model->getCova(k), false));
+      Mf.push_back(Qf[k], &A); Mc.push_back(Qc[k], &A);
+    }
+    Mf.setVarianceDataVector(toVD(vars)); Mc.setVarianceDataVector(toVD(vars)); Mc.makeReady();
+    int n = Qf[0]->getSize();
+    std::vector<double> zz(z.begin(), z.end());
+    std::vector<std::vector<double>> rhs = Mc.computeRhs(zz);
+    std::vector<std::vector<double>> xc(ncov, std::vector<double>(n)), xf(ncov, std::vector<double>(n));
+    Mc.evalInverse(rhs, xc);
+    Mf.evalInverse(rhs, xf);
+    double quad_c = Mc.computeQuadratic(zz), quad_f = Mf.computeQuadratic(zz);
+    double logdet_c = Mc.computeLogDetOp(1);
+    // through the API: the variances come from the locator V of the data
+    int ip1 = krigingSPDE(dat, dout, model, nullptr, true, false, mesh, 1, SPDEParam(), 0, false, false, NamingConvention("KC"));
+    VD kc = deep(dout->getColumnByUID(ip1));
+    int ip0 = krigingSPDE(dat, dout, model, nullptr, true, false, mesh, 0, SPDEParam(), 0, false, false, NamingConvention("KF"));
+    VD kf = deep(dout->getColumnByUID(ip0));
+    SPDE s1(model, dat, dat, ESPDECalcMode::KRIGING, mesh, 1), s0(model, dat, dat, ESPDECalcMode::KRIGING, mesh, 0);
+    law_set_random_seed(1234);
+    double ll1 = s1.computeLogLikelihood(1, false);
+    double ll0 = s0.computeLogLikelihood(1, false);
+    double q1 = s1.computeQuad(), q0 = s0.computeQuad();
+    double ld1 = s1.computeLogDet(1);
+    VD vapi = deep(s1._precisionsKrig->getAllVarianceData());
+    ProjMatrix Aout(dout, mesh);
+    o << "(" << n << " " << ndat << " " << ncov << " (";
+    for (int k = 0; k < ncov; k++)
+      o << (k ? " " : "") << "(" << denseOut(Qc[k]->getQ()) << " " << denseOut(Qc[k]->getShiftOp()->getS()) << " "
+        << sx_vd(deep(Qc[k]->getShiftOp()->getLambdas())) << " " << sx_vd(deep(Qc[k]->getCoeffs())) << " "
+        << sx_vd(VD(rhs[k].begin(), rhs[k].end())) << " " << sx_vd(VD(xc[k].begin(), xc[k].end())) << " " << sx_vd(VD(xf[k].begin(), xf[k].end())) << ")";
+    o << ") (" << projOut(A) << ") (" << projOut(Aout) << ") " << sx_d(quad_c) << " " << sx_d(quad_f) << " " << sx_d(logdet_c)
+      << " " << sx_vd(kc) << " " << sx_vd(kf) << " " << sx_d(q1) << " " << sx_d(q0) << " " << sx_d(ld1) << " " << sx_vd(vapi)
+      << " " << Mf.getLogStats()._inverseCGNIter << ")";
+    for (auto q : Qf) delete q; for (auto q : Qc) delete q;
+    delete dat; delete dout; delete model; delete mesh;
   } else if (kind == 11) {
     // ProjMulti: 2 variables x 2 latent fields; (11 meshA meshB ptsA ptsB nullflag v y d1 d2)
     MeshETurbo* mA = makeTurbo(c[1], 0); MeshETurbo* mB = makeTurbo(c[2], 0);
